@@ -101,6 +101,14 @@ def regrid(ctx, rng, xr, utils):
     x, stored, lnames = source(rng, xr)
     cd = x.attrs.pop("_coord_dtype")
     T = 3e4 if cd == "float32" else 1.0      # float32 coordinates: interpolation weights carry ~1e-7
+    if stored != "dup360" and x.sizes["dir"] >= 6 and rng.random() < 0.15:
+        # source sector grid: one or two adjacent bins missing (not among the first two stored labels, which define
+        # the bin width), so that the gap across the seam / inside the grid differs from the bin width
+        ndx = x.sizes["dir"]
+        j = int(rng.integers(2, ndx - 1))
+        drop = {j, j + 1} if (rng.random() < 0.4 and j + 1 < ndx) else {j}
+        x = x.isel(dir=[k for k in range(ndx) if k not in drop])
+        stored += "+gap"
     f = x.freq.values.astype("float64")
     th = x.dir.values.astype("float64")
     nf, nd = len(f), len(th)
